@@ -3,6 +3,7 @@ import Hannibal.Monitor.C02
 import Hannibal.Monitor.C03
 import Hannibal.Monitor.C04
 import Hannibal.Monitor.C05
+import Hannibal.Monitor.C05D
 import Hannibal.Monitor.C06
 import Hannibal.Monitor.C07
 import Hannibal.Monitor.C10
@@ -42,7 +43,11 @@ def runMonitor (pid : String) (c : MonCtx) (ls : List Label) : Option (Option Na
       | some k => some k
       | none => match ff (monC05q c) ls with
         | some k => some k
-        | none => ff (monC02wf c) ls)    -- hypothesis of `C05q_holds`: operation ids are fresh
+        | none => match ff (monC05d c) ls with      -- dropped calls are drained too
+          | some k => some k
+          | none => match ff (monC02wf c) ls with   -- hypothesis of `C05q_holds`: operation ids are fresh
+            | some k => some k
+            | none => ff monWf01 ls)                -- hypothesis of `monC05d`: message numbers are fresh
   | "C06" => some (match ff (monC06 c) ls with
       | some k => some k
       | none => (match ff (monC06t c) ls with
